@@ -2,6 +2,8 @@ import GridVerif.Props.C14
 import GridVerif.Props.C14.Values
 import GridVerif.Props.C14.Dipole
 import GridVerif.Props.C14.Gen
+import GridVerif.Props.C14.GenNum
+import GridVerif.Props.C14.GenDipole
 
 #print axioms GridVerif.C14.cartesian_orders_spec
 #print axioms GridVerif.C14.pure_orders_spec
@@ -19,3 +21,18 @@ import GridVerif.Props.C14.Gen
 #print axioms GridVerif.C14.gen_moments_orders_radial_zero
 #print axioms GridVerif.C14.gen_solid_degree
 #print axioms GridVerif.C14.gen_row_lookup_correct
+#print axioms GridVerif.C14.gen_centre_eq_model
+#print axioms GridVerif.C14.gen_moments_entry
+#print axioms GridVerif.C14.gen_masses_keys
+#print axioms GridVerif.C14.gen_masses_entries
+#print axioms GridVerif.C14.gen_masses_sane
+#print axioms GridVerif.C14.gen_masses_distinct
+#print axioms GridVerif.C14.gen_masses_increasing
+#print axioms GridVerif.C14.gen_mass_keyerror
+#print axioms GridVerif.C14.gen_mass_last
+#print axioms GridVerif.C14.massR_lookup
+#print axioms GridVerif.C14.gen_dipole_eq_model
+#print axioms GridVerif.C14.gen_dipole_spec
+#print axioms GridVerif.C14.gen_integrate_spec
+#print axioms GridVerif.C14.gen_moments_defaults
+#print axioms GridVerif.C14.gen_multidomain_not_implemented
